@@ -196,7 +196,14 @@ TEXT = {'C11': {'technique': 'Lean 4 proof by mutual structural induction over t
                   "implementation's counters for every family. Measured: tokenize+parse time for nested/unclosed/mis-closed parentheses, "
                   'operator/application/definition/conditional/lambda/arrow/negation/comparison chains, long-and-nested inputs, shared dependency graphs, at n '
                   '= 250..2000 (4000 thorough); a local growth exponent above 4.5, a run above 30 s or a sweep that does not finish is a violation with family '
-                  'and n as replay.',
+                  'and n as replay. **Step counts (Lemmas/CostBounds.lean), each counting twin tied to the model function by a first-component equality: the '
+                  "tokenizer's main loop plus its inner loops inspect every character at most twice (C17_scan_steps_le: ≤ 2·n, the constant is attained), fuel "
+                  '`length` is enough (C17_scan_fuel_enough), the second pass makes length+1 calls (C17_filter_linear), the whole tokenizer ≤ 4·n + 1 steps '
+                  'and at most n tokens (C17_tokenize_linear); one error-recovery scan inspects at most the remaining tokens + 1 (C17_recovery_scan_le, '
+                  'attained); a body execution of parse_let / parse_if scans at most twice, parse_group once, the other 33 never (C17_body_scans_le, for '
+                  'writer-style twins of the bodies); with one body execution per miss and misses ≤ 36·(n+1): calls + scan budget ≤ 361·(n+1) + 72·(n+1)² '
+                  '(C17_parse_steps_quadratic — the sum over body executions is arithmetic over these three theorems, not a counter threaded through the '
+                  'run).**',
          'note': 'Trusted: Lean kernel, extractor, harness timing. Not modelled: the machine.'},
  'C03': {'technique': 'independent explicit checker inferX written in Lean (normalise-and-compare conversion, no unification variables), run by the compiled '
                       'driver on the zonked elaboration of every program the real checker accepts (translation validation); Lean proofs about inferX (scoping, '
